@@ -109,7 +109,7 @@ pub fn check(sh: &Shared, c: &Case) -> Check {
     show("parse<Punctuation>", s, rp.map(|x| x.map(|_| ())))?;
     // one input in 32 again in other calling contexts (a destructor during unwinding, a
     // thread-local destructor at thread exit) and through a format value at a reused address
-    if crate::slots::key_of(s) % 32 == 0 {
+    if !is_fuzz_mode() && crate::slots::key_of(s) % 32 == 0 {
         let here = (guard(|| f.parse::<Narsese>(s).is_ok()).ok(), guard(|| f.parse::<Truth>(s).is_ok()).ok());
         for ctx in crate::contexts::ALL {
             sh.evals(2);
